@@ -123,6 +123,98 @@ async fn run_schedule(log: &Log, sched: &Sched, ntasks: usize, schedule: &[Strin
     quiesce().await;
 }
 
+/// Frames the peer sends to a brand-new client session before the client has written anything: whatever
+/// the session answers, its settings frame must still be the first frame on the wire.
+async fn run_peer_first(log: &Log, seed: u64, i: u64) {
+    use crate::rig::frame_bytes;
+    log.reset(json!({"kind": "peer-first", "i": i}));
+    let panics0 = PANICS.load(Ordering::SeqCst);
+    let mut r = Rng::new(seed);
+    let scheme = *r.pick(&[anytls_rs::padding::DEFAULT_PADDING_SCHEME, "stop=0", "stop=9\n1=20-40\n2=c,30-30\n3=5-9,c,100-120\n4=90-90"]);
+    let factory = Arc::new(PaddingFactory::new(scheme.as_bytes()).unwrap());
+    let rg = rig::client_rig(factory.clone(), None);
+    let mut obs = Obs { carry: Vec::new(), submitted: HashMap::new(), md5: factory.md5().to_string() };
+    ev!(log, "call", task: "A", op: "start", chunks: [json!([4, sid_cells(0), -1])]);
+    let ok = rg.sess.clone().start_client().await.is_ok();
+    ev!(log, "ret", task: "A", op: "start", ok: ok);
+    quiesce().await;
+    for _ in 0..r.range(1, 4) {
+        match r.below(5) {
+            0 | 1 => { ev!(log, "hbin", n: 1); rg.inp.push(&frame_bytes(8, *r.pick(&[0u32, 5]), &[])); }
+            2 => rg.inp.push(&frame_bytes(10, 0, b"v=2")),
+            3 => rg.inp.push(&frame_bytes(0, 0, &[0u8; 20])),
+            _ => rg.inp.push(&frame_bytes(7, 99, &[])),
+        }
+        quiesce().await;
+        observe(log, &rg.out, &mut obs, false);
+    }
+    let len = r.range(1, 200) as usize;
+    let data: Vec<u8> = (0..len).map(|i| (i as u8) ^ (len as u8)).collect();
+    obs.submitted.insert((2, len), data.clone());
+    ev!(log, "call", task: "A", op: "open", chunks: [json!([1, [-1, -1, -1, -1], 0])]);
+    let res = rg.sess.open_stream().await;
+    let (ok, sid) = match res { Ok((st, rx)) => { std::mem::forget(rx); (true, st.id()) } Err(_) => (false, 0) };
+    ev!(log, "ret", task: "A", op: "open", ok: ok);
+    rg.sess.disable_buffering();
+    ev!(log, "call", task: "A", op: "data", chunks: [json!([2, sid_cells(sid), len])]);
+    let ok = rg.sess.write_data_frame(sid, Bytes::from(data)).await.is_ok();
+    ev!(log, "ret", task: "A", op: "data", ok: ok);
+    quiesce().await;
+    observe(log, &rg.out, &mut obs, true);
+    ev!(log, "end", panics: PANICS.load(Ordering::SeqCst) - panics0, hung: 0);
+    let _ = tokio::time::timeout(std::time::Duration::from_secs(5), rg.sess.close()).await;
+    quiesce().await;
+}
+
+/// The transport stalls in the middle of a frame written by the session's own keep-alive task, for longer than
+/// the keep-alive interval, and resumes: the frame must still reach the transport contiguously.
+async fn run_hb_stall(log: &Log, seed: u64, i: u64) {
+    use anytls_rs::session::SessionHeartbeatConfig;
+    use std::time::Duration;
+    log.reset(json!({"kind": "hb-stall", "i": i}));
+    let panics0 = PANICS.load(Ordering::SeqCst);
+    let mut r = Rng::new(seed);
+    let factory = Arc::new(PaddingFactory::new(b"stop=0").unwrap());
+    let (iv, to) = *r.pick(&[(30u64, 100u64), (10, 60), (5, 30)]);
+    let rg = rig::client_rig(factory.clone(), Some(SessionHeartbeatConfig { interval: Duration::from_secs(iv), timeout: Duration::from_secs(to) }));
+    let mut obs = Obs { carry: Vec::new(), submitted: HashMap::new(), md5: factory.md5().to_string() };
+    ev!(log, "call", task: "A", op: "start", chunks: [json!([4, sid_cells(0), -1])]);
+    let ok = rg.sess.clone().start_client().await.is_ok();
+    ev!(log, "ret", task: "A", op: "start", ok: ok);
+    ev!(log, "call", task: "A", op: "open", chunks: [json!([1, [-1, -1, -1, -1], 0])]);
+    let res = rg.sess.open_stream().await;
+    let (ok, sid) = match res { Ok((st, rx)) => { std::mem::forget(rx); (true, st.id()) } Err(_) => (false, 0) };
+    ev!(log, "ret", task: "A", op: "open", ok: ok);
+    rg.sess.disable_buffering();
+    let mut send = async |len: usize, obs: &mut Obs| {
+        let data: Vec<u8> = (0..len).map(|i| (i as u8) ^ (len as u8)).collect();
+        obs.submitted.insert((2, len), data.clone());
+        ev!(log, "call", task: "A", op: "data", chunks: [json!([2, sid_cells(sid), len])]);
+        let ok = rg.sess.write_data_frame(sid, Bytes::from(data)).await.is_ok();
+        ev!(log, "ret", task: "A", op: "data", ok: ok);
+    };
+    send(r.range(1, 100) as usize, &mut obs).await;
+    quiesce().await;
+    observe(log, &rg.out, &mut obs, false);
+    // the next keep-alive request gets only its first k bytes through
+    let k = r.range(1, 6);
+    rg.out.block_writes_at(rg.out.written() + k);
+    let stall = iv + iv / 2 + r.below(iv / 2 + 1);          // longer than one interval, shorter than the timeout
+    let mut t = 0u64;
+    while rg.out.with(|p| p.blocked_hits) == 0 && t < 3 * iv { tokio::time::sleep(Duration::from_secs(1)).await; quiesce().await; t += 1; }
+    tokio::time::sleep(Duration::from_secs(stall)).await;
+    quiesce().await;
+    rg.out.unblock_writes();
+    quiesce().await;
+    observe(log, &rg.out, &mut obs, false);
+    send(r.range(101, 300) as usize, &mut obs).await;
+    quiesce().await;
+    observe(log, &rg.out, &mut obs, true);
+    ev!(log, "end", panics: PANICS.load(Ordering::SeqCst) - panics0, hung: 0);
+    let _ = tokio::time::timeout(Duration::from_secs(5), rg.sess.close()).await;
+    quiesce().await;
+}
+
 pub fn run(args: &Args, log: &Log) -> Result<(), String> {
     std::panic::set_hook(Box::new(|_| { PANICS.fetch_add(1, Ordering::SeqCst); }));
     let rt = rig::paused_rt();
@@ -135,6 +227,10 @@ pub fn run(args: &Args, log: &Log) -> Result<(), String> {
             let ntasks = sc.get("tasks").and_then(|x| x.as_u64()).unwrap_or(2) as usize;
             run_schedule(log, &sched, ntasks, &schedule, json!({"kind": "gen", "tasks": ntasks, "sched": schedule.join("")}), args.seed ^ ((i as u64) << 12)).await;
         }
+        Sched::uninstall();
+        let thorough = args.tier == "thorough";
+        for i in 0..(if thorough { 400 } else { 60 }) { run_peer_first(log, args.seed.wrapping_mul(977).wrapping_add(i), i).await; }
+        for i in 0..(if thorough { 200 } else { 30 }) { run_hb_stall(log, args.seed.wrapping_mul(613).wrapping_add(i), i).await; }
         // the ids handed out by open_stream depend on call order: schedules where B opens before A are
         // still valid, the harness reports ok=false only if a call fails
     });
